@@ -905,10 +905,25 @@ async fn run(ops: &str, out: &str, stats_path: Option<&str>, work: &str) {
         case: None,
         stats: Stats::default(),
     };
+    // the instances are reused from case to case (new rooms each time); their tables grow and every recomputation
+    // scans the whole daily log, so they are replaced by fresh ones every RECYCLE cases
+    const RECYCLE: usize = 120;
+    let mut cases_on_instances = 0usize;
     for line in std::io::BufReader::new(f).lines() {
         let line = line.unwrap();
         let (kind, kv) = parse_kv(&line);
         let res: String = if kind == "case" {
+            if cases_on_instances >= RECYCLE {
+                if world.case.is_some() {
+                    world.auto_commit().await;
+                }
+                world.peers.clear();
+                world.generation += 1;
+                world.case = None;
+                cases_on_instances = 0;
+                world.stats.add("instances_recycled", 1);
+            }
+            cases_on_instances += 1;
             let t0 = std::time::Instant::now();
             let r = world.start_case(&kv).await;
             world.stats.add("ms.case", t0.elapsed().as_millis() as u64);
